@@ -1,0 +1,55 @@
+//go:build verif
+// +build verif
+
+// Verification-only exports (build tag "verif").  No logic here: a constructor
+// that fills exactly the unexported Angine fields the block-execution path
+// reads (InitPlugins, BeginBlock, ExecBlock, EndBlock, ExecAdminTx), and an
+// accessor for the plugin list.
+
+package gemmill
+
+import (
+	"github.com/spf13/viper"
+
+	"github.com/dappledger/AnnChain/gemmill/go-crypto"
+	dbm "github.com/dappledger/AnnChain/gemmill/modules/go-db"
+	"github.com/dappledger/AnnChain/gemmill/p2p"
+	"github.com/dappledger/AnnChain/gemmill/plugin"
+	"github.com/dappledger/AnnChain/gemmill/refuse_list"
+	"github.com/dappledger/AnnChain/gemmill/state"
+	"github.com/dappledger/AnnChain/gemmill/types"
+)
+
+// VerifBlockExecAngine returns an Angine without consensus, p2p listener or
+// application: only the state machine, genesis, validator key, switch, refuse
+// list and state DB are set, i.e. what InitPlugins and the IBlockExecutable
+// methods use.
+func VerifBlockExecAngine(st *state.State, pv *types.PrivValidator, sw *p2p.Switch, rl *refuse_list.RefuseList, stateDB dbm.DB, conf *viper.Viper) *Angine {
+	return &Angine{
+		tune:          &Tunes{Conf: conf},
+		conf:          conf,
+		dbs:           map[string]dbm.DB{"state": stateDB},
+		privValidator: pv,
+		stateMachine:  st,
+		p2pSwitch:     sw,
+		refuseList:    rl,
+		genesis:       st.GenesisDoc,
+	}
+}
+
+// VerifPlugins returns the plugins installed by InitPlugins.
+func (ang *Angine) VerifPlugins() []plugin.IPlugin { return ang.plugins }
+
+// --- C20 (P2P admission): pure wrappers of the unexported admission closures.
+
+func VerifAuthByCA(conf *viper.Viper, ppValidators **types.ValidatorSet) func(*p2p.NodeInfo) error {
+	return authByCA(conf, ppValidators)
+}
+
+func VerifRefuseListFilter(refuseList *refuse_list.RefuseList) func(crypto.PubKey) error {
+	return refuseListFilter(refuseList)
+}
+
+func VerifAddToRefuselist(refuseList *refuse_list.RefuseList) func([]byte) error {
+	return addToRefuselist(refuseList)
+}
